@@ -1916,6 +1916,7 @@ def _shrink(self, scn, violation=None):
 SqwEngine.nontrivial = _nontrivial
 SqwEngine.describe = _describe
 SqwEngine.shrink = _shrink
+SqwEngine.selftest_indices = lambda self, n: [0, 1, 24, 25] + list(range(SWEEP_RUNS, SWEEP_RUNS + n - 4))
 
 
 def make_engine(prop):
